@@ -226,7 +226,7 @@ def precision(bits):
         config.precision = 64 if old == np.float64 else 32
 
 
-FFT_BACKENDS = ['scipy', 'scipy', 'scipy', 'numpy']
+FFT_BACKENDS = ['scipy', 'scipy', 'scipy', 'numpy', 'transforms-only']
 fft_backends = st.sampled_from(FFT_BACKENDS)
 
 
@@ -240,6 +240,13 @@ def fft_backend(name):
         if name == 'numpy':
             import numpy.fft as npfft
             mathops.fft._srcmodule = npfft
+        elif name == 'transforms-only':
+            # a backend that provides the transforms and the shifts but no helper functions (neither fftfreq nor next_fast_len), as the
+            # transform-only modules of mkl_fft / pyfftw do: the library's own fall-backs for frequency vectors and sizing run
+            import types
+            import numpy.fft as npfft
+            mathops.fft._srcmodule = types.SimpleNamespace(**{k: getattr(npfft, k) for k in (
+                'fft', 'ifft', 'fft2', 'ifft2', 'fftn', 'ifftn', 'rfft', 'irfft', 'rfft2', 'irfft2', 'fftshift', 'ifftshift')})
         yield
     finally:
         mathops.fft._srcmodule = old
